@@ -20,18 +20,6 @@ open Tup.CellSize Tup.Spec.CellSize
 
 variable {e : Env} {w h : Nat} {cols? rows? maxCols? maxRows? : Option Int} {scale? : Option Frac} {c r : Int}
 
-theorem limC_pos (D : Dom e w h cols? rows? maxCols? maxRows? scale?) : 1 ≤ limCOf e maxCols? := by
-  have h1 := D.argC; have h2 := D.cfgC; have h3 := D.termCols
-  unfold limCOf colLimit limit
-  rcases maxCols? with _ | a <;> rcases hc : e.cfgMaxCols with _ | b <;> simp only [hc] at h2 <;>
-    simp <;> (try have := h1 _ rfl) <;> (try have := h2 _ rfl) <;> omega
-
-theorem limR_pos (D : Dom e w h cols? rows? maxCols? maxRows? scale?) : 1 ≤ limROf e maxRows? ∧ limROf e maxRows? ≤ 256 := by
-  have h1 := D.argR; have h2 := D.cfgR; have h3 := D.termRows
-  unfold limROf rowLimit limit
-  rcases maxRows? with _ | a <;> rcases hc : e.cfgMaxRows with _ | b <;> simp only [hc] at h2 <;>
-    simp <;> (try have := h1 _ rfl) <;> (try have := h2 _ rfl) <;> omega
-
 /-- The limits in force are the per-call argument, else the configured value, else the terminal
     size, and never more than 256 rows. -/
 theorem limits_spec (D : Dom e w h cols? rows? maxCols? maxRows? scale?) :
@@ -45,27 +33,6 @@ theorem chooses (D : Dom e w h cols? rows? maxCols? maxRows? scale?) :
   · rcases cols? with _ | c <;> rcases rows? with _ | r <;> simp at hb
     exact ⟨c, r, rfl⟩
   · exact ⟨_, _, run D hb⟩
-
-private theorem shape_of (D : Dom e w h cols? rows? maxCols? maxRows? scale?) (hnot : ¬ (cols?.isSome ∧ rows?.isSome))
-    (hres : getOptimalColsAndRows e w h cols? rows? maxCols? maxRows? scale? = .ok (c, r)) :
-    ∃ cN rN : Nat, c = cN ∧ r = rN ∧ 1 ≤ cN ∧ cN ≤ limCOf e maxCols? ∧ 1 ≤ rN ∧ rN ≤ limROf e maxRows? ∧
-      Shape (geoOf e w h scale?) (cols?.map Int.toNat) (rows?.map Int.toNat) (limCOf e maxCols?) (limROf e maxRows?) cN rN := by
-  rw [run D hnot] at hres
-  injection hres with hres
-  injection hres with h1 h2
-  have hcols : ∀ c0, cols?.map Int.toNat = some c0 → 1 ≤ c0 := by
-    intro c0 hc0
-    rcases cols? with _ | x
-    · simp at hc0
-    · have := D.cols x rfl; simp at hc0; omega
-  have hrows : ∀ r0, rows?.map Int.toNat = some r0 → 1 ≤ r0 := by
-    intro r0 hr0
-    rcases rows? with _ | x
-    · simp at hr0
-    · have := D.rows x rfl; simp at hr0; omega
-  have hnot' : ¬ ((cols?.map Int.toNat).isSome ∧ (rows?.map Int.toNat).isSome) := by simpa using hnot
-  have sh := pureCore_shape (geoOf_pos D) (limC_pos D) (limR_pos D).1 hcols hrows hnot'
-  exact ⟨_, _, h1.symm, h2.symm, sh.1, sh.2.1, sh.2.2.1, sh.2.2.2.1, sh.2.2.2.2⟩
 
 /-- Both dimensions are at least 1, columns within the column limit, rows within the row limit,
     which is never more than 256. -/
